@@ -129,6 +129,7 @@ func (ss *blobAccessMutableProtoStore[T, TProto]) Get(ctx context.Context, reduc
 			panic("Handle has bad write index")
 		}
 		handle.handlesToWriteIndex = -1
+		handle.writeInFlight = true
 		handlesToWrite = append(handlesToWrite, handleToWrite[T, TProto]{
 			handle:         handle,
 			message:        proto.Clone(TProto(&handle.message)),
@@ -165,11 +166,13 @@ func (ss *blobAccessMutableProtoStore[T, TProto]) Get(ctx context.Context, reduc
 		group.Go(func() error {
 			if err := ss.initialSizeClassCache.Put(ctxWithCancel, handleToWrite.handle.digest, buffer.NewProtoBufferFromProto(handleToWrite.message, buffer.UserProvided)); err != nil {
 				ss.lock.Lock()
+				handleToWrite.handle.writeInFlight = false
 				handleToWrite.handle.removeOrQueueForWriteLocked()
 				ss.lock.Unlock()
 				return util.StatusWrapf(err, "Failed to write mutable Protobuf message with digest %#v", handleToWrite.handle.digest.String())
 			}
 			ss.lock.Lock()
+			handleToWrite.handle.writeInFlight = false
 			handleToWrite.handle.writtenVersion = handleToWrite.writingVersion
 			handleToWrite.handle.removeOrQueueForWriteLocked()
 			ss.lock.Unlock()
@@ -226,6 +229,11 @@ type blobAccessMutableProtoHandle[T any, TProto interface {
 	// track of this index, so that we can remove the handle from
 	// the list if needed.
 	handlesToWriteIndex int
+
+	// Whether Get() is currently writing this handle to storage. A
+	// handle must not be queued or discarded while this is the
+	// case; completion of the write takes care of that.
+	writeInFlight bool
 }
 
 func (sh *blobAccessMutableProtoHandle[T, TProto]) GetMutableProto() TProto {
@@ -258,7 +266,7 @@ func (sh *blobAccessMutableProtoHandle[T, TProto]) decreaseUseCount() {
 }
 
 func (sh *blobAccessMutableProtoHandle[T, TProto]) removeOrQueueForWriteLocked() {
-	if sh.useCount == 0 {
+	if sh.useCount == 0 && !sh.writeInFlight {
 		ss := sh.store
 		if sh.writtenVersion == sh.currentVersion {
 			// No changes were made to the message. Simply
